@@ -27,6 +27,10 @@ type Case struct {
 	Kind     string `json:"kind"`
 	Protocol string `json:"protocol"`
 	Tree     []Node `json:"tree"`
+	// Reuse: how many other clients/handlers the very same option values are
+	// applied to first (generated service constructors pass one option list to
+	// every procedure of the service).
+	Reuse int `json:"reuse"`
 }
 
 type evlog struct {
@@ -236,8 +240,17 @@ func check(tt *testing.T, c Case) (pbt.Info, error) {
 	copts := cfg.ClientOptions()
 	if c.Side == "client" {
 		copts = append(copts, clientOpts(c.Tree, log)...)
+		for i := 0; i < c.Reuse; i++ {
+			_ = connect.NewClient[pingv1.PingRequest, pingv1.PingResponse](&memnet.Mem{}, prog.BaseURL+fmt.Sprintf("/verif.v1.Svc/Other%d", i), copts...)
+		}
 	} else {
 		hopts = handlerOpts(c.Tree, log)
+		for i := 0; i < c.Reuse; i++ {
+			_ = prog.NewHandlerAt(fmt.Sprintf("/verif.v1.Svc/Other%d", i), c.Kind, &prog.HandlerProg{}, &prog.HLog{}, hopts...)
+		}
+	}
+	if c.Reuse > 0 {
+		info.Label("options-reused")
 	}
 	// handler: receive everything, send 2 messages (streaming) / 1 response
 	hp := &prog.HandlerProg{Drain: true, Resp: &prog.Msg{N: 1}}
@@ -359,6 +372,7 @@ func gen(t *rapid.T) Case {
 		Side:     rapid.SampledFrom([]string{"client", "handler"}).Draw(t, "side"),
 		Kind:     rapid.SampledFrom(prog.Kinds).Draw(t, "kind"),
 		Protocol: rapid.SampledFrom(prog.Protocols).Draw(t, "protocol"),
+		Reuse:    rapid.SampledFrom([]int{0, 0, 1, 2}).Draw(t, "reuse"),
 	}
 	next := 0
 	k := rapid.IntRange(1, 4).Draw(t, "ntop")
@@ -370,7 +384,7 @@ func gen(t *rapid.T) Case {
 
 var spec = pbt.Spec[Case]{
 	Prop: "C16", Name: "trees", Gen: gen, Check: check,
-	Rule: "rapid-generated option trees: up to 6 labelled interceptors (nil entries anywhere) spread over WithInterceptors groups nested up to depth 3 inside WithOptions / WithClientOptions / WithHandlerOptions, interleaved with empty WithInterceptors() and unrelated options; × {client, handler} × 4 RPC kinds × 3 protocols; oracle: reference model = flat concatenation minus nils, checked on an event log (request/Send order 1..m, response/Receive completion order m..1, each interceptor wraps once); non-trivial = ≥2 effective interceptors AND (≥2 groups OR nesting OR a nil entry)",
+	Rule: "rapid-generated option trees: up to 6 labelled interceptors (nil entries anywhere) spread over WithInterceptors groups nested up to depth 3 inside WithOptions / WithClientOptions / WithHandlerOptions, interleaved with empty WithInterceptors() and unrelated options; the same option values optionally applied to 1–2 other clients/handlers first (as generated constructors do); × {client, handler} × 4 RPC kinds × 3 protocols; oracle: reference model = flat concatenation minus nils, checked on an event log (request/Send order 1..m, response/Receive completion order m..1, each interceptor wraps once); non-trivial = ≥2 effective interceptors AND (≥2 groups OR nesting OR a nil entry)",
 }
 
 func TestTrees(t *testing.T) { pbt.Run(t, spec) }
@@ -406,7 +420,7 @@ func TestCompositions(t *testing.T) {
 				}
 				for _, side := range []string{"client", "handler"} {
 					for _, kind := range prog.Kinds {
-						c := Case{Side: side, Kind: kind, Protocol: prog.Protocols[(n+comp+mask)%3], Tree: tree}
+						c := Case{Side: side, Kind: kind, Protocol: prog.Protocols[(n+comp+mask)%3], Tree: tree, Reuse: (comp + mask) % 3}
 						info, err := check(t, c)
 						total++
 						if info.NonTrivial {
